@@ -211,7 +211,13 @@ func checkC18(w *World, r *Report) {
 						if len(s.Callees) == 0 || !strings.Contains(s.Method, "addSharesTo") {
 							continue
 						}
+						cands := append([]ssa.Value{}, s.Args()...)
 						for _, a := range s.Args() {
+							for _, lv := range literalArgFields(a) {
+								cands = append(cands, lv) // the amount travels in a struct literal built at the call
+							}
+						}
+						for _, a := range cands {
 							if (a == v || sameCellValue(a, v)) && (instrDominates(s.Instr, at) || s.Instr.Block() == at.Block()) {
 								return true
 							}
@@ -368,8 +374,25 @@ func checkC18(w *World, r *Report) {
 			alwaysEmits = func(h *ssa.Function, depth int) bool {
 				return funcMustPass(h, func(b *ssa.BasicBlock) bool { return emitsIn(b, depth) })
 			}
-			// emitCallOf: the call in fn that emits value v (directly or through an always-emitting helper handed v)
-			emitCallOf := func(fn *ssa.Function, v ssa.Value) []*ssa.Call {
+			// valuesWhere: the parameters and instruction values of fn that satisfy pred
+			valuesWhere := func(fn *ssa.Function, pred func(ssa.Value) bool) []ssa.Value {
+				var out []ssa.Value
+				for _, p := range fn.Params {
+					if pred(p) {
+						out = append(out, p)
+					}
+				}
+				for _, b := range fn.Blocks {
+					for _, in := range b.Instrs {
+						if v, ok := in.(ssa.Value); ok && pred(v) {
+							out = append(out, v)
+						}
+					}
+				}
+				return out
+			}
+			// emitCallOf: the calls in fn that emit a value satisfying isV (directly or through an always-emitting helper)
+			emitCallOf := func(fn *ssa.Function, isV func(ssa.Value) bool) []*ssa.Call {
 				var out []*ssa.Call
 				for _, b := range fn.Blocks {
 					for _, in := range b.Instrs {
@@ -379,10 +402,10 @@ func checkC18(w *World, r *Report) {
 						}
 						hasV := false
 						for _, a := range c.Common().Args {
-							if a == v {
+							if isV(a) {
 								hasV = true
 							}
-							if mi, ok := a.(*ssa.MakeInterface); ok && mi.X == v {
+							if mi, ok := a.(*ssa.MakeInterface); ok && isV(mi.X) {
 								hasV = true
 							}
 						}
@@ -398,18 +421,23 @@ func checkC18(w *World, r *Report) {
 				}
 				return out
 			}
-			var analyse func(fn *ssa.Function, dists, burn ssa.Value, from *ssa.BasicBlock, depth int) (bool, bool)
-			analyse = func(fn *ssa.Function, dists, burn ssa.Value, from *ssa.BasicBlock, depth int) (bool, bool) {
+			never := func(ssa.Value) bool { return false }
+			var analyseP func(fn *ssa.Function, isD, isB func(ssa.Value) bool, from *ssa.BasicBlock, depth int) (bool, bool)
+			analyseP = func(fn *ssa.Function, isD, isB func(ssa.Value) bool, from *ssa.BasicBlock, depth int) (bool, bool) {
 				okL, okB := false, false
 				for _, l := range rangeLoops(fn) {
-					if l.Over == dists && dists != nil {
+					if l.Over != nil && isD(l.Over) {
 						okL = loopEarlyExit(l) == nil && loopBodyMustPass(l, func(b *ssa.BasicBlock) bool { return emitsIn(b, 0) }) && mustFollow(from, l.Header)
 					}
 				}
 				// burn: emitted on the non-nil edge, and nothing else decides
-				if burn != nil {
-					for _, c := range emitCallOf(fn, burn) {
-						edges := NilEdges(fn, map[ssa.Value]bool{burn: true}, false)
+				burnVals := map[ssa.Value]bool{}
+				for _, v := range valuesWhere(fn, isB) {
+					burnVals[v] = true
+				}
+				if len(burnVals) > 0 {
+					for _, c := range emitCallOf(fn, isB) {
+						edges := NilEdges(fn, burnVals, false)
 						for _, e := range edges {
 							// the emit block is exactly the non-nil successor (no further condition), and the test is always reached
 							if (e.To() == c.Block() || e.To().Dominates(c.Block()) && len(e.To().Succs) <= 1) && mustFollow(from, e.From) {
@@ -418,38 +446,55 @@ func checkC18(w *World, r *Report) {
 						}
 					}
 				}
-				if (okL && (okB || burn == nil)) || depth >= 3 {
+				if (okL && okB) || depth >= 3 {
 					return okL, okB
 				}
-				// the emission may be a helper that is handed the distributions and the burn, called unconditionally
+				// the emission may be a helper that is handed the distributions and the burn (as arguments or inside a small
+				// struct built at the call), called unconditionally
 				for _, cs := range cg.Sites[fn] {
 					h := cs.Common().StaticCallee()
-					if h == nil || h.Blocks == nil || !w.isProdFunc(h) || cs.Common().IsInvoke() {
+					call, isCall := cs.Instr.(*ssa.Call)
+					if h == nil || !isCall || h.Blocks == nil || !w.isProdFunc(h) || cs.Common().IsInvoke() {
 						continue
 					}
-					var dP, bP ssa.Value
-					for i, a := range cs.Common().Args {
-						if i >= len(h.Params) {
-							continue
+					carriesD, carriesB := false, false
+					for _, a := range flatArgs(cs) {
+						if isD(a) {
+							carriesD = true
 						}
-						if a == dists && dists != nil {
-							dP = h.Params[i]
-						}
-						if a == burn && burn != nil {
-							bP = h.Params[i]
+						if isB(a) {
+							carriesB = true
 						}
 					}
-					if dP == nil && bP == nil {
+					if !carriesD && !carriesB {
 						continue
 					}
 					if !mustFollow(from, cs.Instr.Block()) {
 						continue
 					}
-					l2, b2 := analyse(h, dP, bP, h.Blocks[0], depth+1)
-					okL = okL || (dP != nil && l2)
-					okB = okB || (bP != nil && b2)
+					bind := bindParams(h, call)
+					isD2, isB2 := never, never
+					if carriesD {
+						isD2 = func(v ssa.Value) bool { tv := translateValue(v, bind, 0); return tv != v && isD(tv) }
+					}
+					if carriesB {
+						isB2 = func(v ssa.Value) bool { tv := translateValue(v, bind, 0); return tv != v && isB(tv) }
+					}
+					l2, b2 := analyseP(h, isD2, isB2, h.Blocks[0], depth+1)
+					okL = okL || (carriesD && l2)
+					okB = okB || (carriesB && b2)
 				}
 				return okL, okB
+			}
+			analyse := func(fn *ssa.Function, dists, burn ssa.Value, from *ssa.BasicBlock, depth int) (bool, bool) {
+				isD, isB := never, never
+				if dists != nil {
+					isD = func(v ssa.Value) bool { return v == dists }
+				}
+				if burn != nil {
+					isB = func(v ssa.Value) bool { return v == burn }
+				}
+				return analyseP(fn, isD, isB, from, depth)
 			}
 			okLoop, okBurn = analyse(sdpE.Site.Caller, dists, burn, sdp.Block(), 0)
 			// the events may be handed UP: the function that calls the distribution routine returns them (nil where
